@@ -462,4 +462,216 @@ theorem runBody_closed_form (k : Kind) (hwf : WF k) (buf0 : Bytes) (segs : List 
       simp only [Bool.false_eq_true, if_false, List.append_nil, hout, hrout, Option.getD_some, hk, true_and]
       by_cases he : r.kind = .eof <;> simp [he]
 
+
+/-! ### `Length`: closed form -/
+
+theorem runBytes_length (n : Nat) (s : Bytes) :
+    runBytes (.length n) s [] =
+      if n ≤ s.length then ⟨s.take n, .length 0, s.drop n, .done⟩
+      else ⟨s, .length (n - s.length), [], .more⟩ := by
+  by_cases h : n ≤ s.length
+  · simp only [h, if_true]
+    rw [runBytes_length_bulk n n s [] (Nat.le_refl _) h]
+    simp only [Nat.sub_self, List.nil_append]
+    exact runBytes_done _ rfl _ _
+  · simp only [h, if_false]
+    have hlt : s.length < n := by omega
+    rw [runBytes_length_bulk s.length n s [] (by omega) (Nat.le_refl _)]
+    simp only [List.drop_length, List.take_length, List.nil_append, runBytes]
+    have : isDone (.length (n - s.length)) = false := by
+      cases hn : n - s.length with
+      | zero => omega
+      | succ m => rfl
+    simp [this]
+
+/-! ### the decoder never changes its kind of framing -/
+
+def fam : Kind → Nat
+  | .length _ => 0
+  | .chunked _ _ => 1
+  | .eof => 2
+
+theorem stepByte_fam {k : Kind} {b : UInt8} {k' : Kind} {o : Option UInt8}
+    (h : stepByte k b = .next k' o) : fam k' = fam k := by
+  cases k with
+  | length rem => simp only [stepByte, BStep.next.injEq] at h; obtain ⟨h, _⟩ := h; subst h; rfl
+  | eof => simp only [stepByte, BStep.next.injEq] at h; obtain ⟨h, _⟩ := h; subst h; rfl
+  | chunked st size =>
+    simp only [stepByte] at h
+    split at h
+    · simp only [BStep.next.injEq] at h; obtain ⟨h, _⟩ := h; subst h; rfl
+    · cases hc : ctl st size b with
+      | none => simp [hc] at h
+      | some r =>
+        obtain ⟨st', size'⟩ := r
+        simp only [hc, BStep.next.injEq] at h
+        obtain ⟨h, _⟩ := h; subst h; rfl
+
+theorem runBytes_fam (k : Kind) (s acc : Bytes) (h : (runBytes k s acc).st ≠ .failed) :
+    fam (runBytes k s acc).kind = fam k := by
+  induction s generalizing k acc with
+  | nil => simp [runBytes]
+  | cons b bs ih =>
+    simp only [runBytes] at h ⊢
+    split
+    · rfl
+    · next hd =>
+      simp only [hd, if_false] at h
+      cases hs : stepByte k b with
+      | fail => simp [hs] at h
+      | next k' o =>
+        simp only [hs] at h ⊢
+        rw [ih k' _ h, stepByte_fam hs]
+
+/-! ### the chunked wire format (RFC 7230 §4.1, no extensions, no trailers) round-trips -/
+
+def hexDigitByte (d : Nat) : UInt8 := if d < 10 then UInt8.ofNat (48 + d) else UInt8.ofNat (87 + d)
+
+/-- little-endian base-16 digits; `fuel ≥ n` suffices -/
+def hexDigitsLE : Nat → Nat → List Nat
+  | 0, _ => []
+  | fuel + 1, n => if n < 16 then [n] else (n % 16) :: hexDigitsLE fuel (n / 16)
+
+def hexDigits (n : Nat) : List Nat := (hexDigitsLE (n + 1) n).reverse
+
+def hexBytes (n : Nat) : Bytes := (hexDigits n).map hexDigitByte
+
+def crlf : Bytes := [13, 10]
+
+def encodeChunk (c : Bytes) : Bytes := hexBytes c.length ++ crlf ++ c ++ crlf
+
+def lastChunk : Bytes := [48, 13, 10, 13, 10]
+
+def encodeChunked (cs : List Bytes) : Bytes := flat (cs.map encodeChunk) ++ lastChunk
+
+def digitsVal (s : Nat) (ds : List Nat) : Nat := ds.foldl (fun a d => a * 16 + d) s
+
+theorem hexVal8_digit : ∀ d : Fin 16, hexVal8 (hexDigitByte d.val) = some d.val := by decide
+
+theorem digitsVal_ge (ds : List Nat) (s : Nat) : s ≤ digitsVal s ds := by
+  induction ds generalizing s with
+  | nil => simp [digitsVal]
+  | cons d ds ih =>
+    have := ih (s * 16 + d)
+    simp only [digitsVal, List.foldl_cons] at this ⊢
+    omega
+
+/-- one control byte -/
+theorem runBytes_ctl {st : ChSt} {size : Nat} {b : UInt8} {st' : ChSt} {size' : Nat} (bs acc : Bytes)
+    (hnd : st ≠ .done) (hnb : st ≠ .body) (hc : ctl st size b = some (st', size')) :
+    runBytes (.chunked st size) (b :: bs) acc = runBytes (.chunked st' size') bs acc := by
+  have hd : isDone (.chunked st size) = false := by cases st <;> simp_all [isDone]
+  simp [runBytes, hd, stepByte, hnb, hc, optList]
+
+/-- the size line: hex digits accumulate exactly their value as long as it fits in a u64 -/
+theorem runBytes_digits (ds : List Nat) : ∀ (s : Nat) (tail acc : Bytes), (∀ d ∈ ds, d < 16) →
+    digitsVal s ds < u64Bound →
+    runBytes (.chunked .size s) (ds.map hexDigitByte ++ tail) acc =
+      runBytes (.chunked .size (digitsVal s ds)) tail acc := by
+  induction ds with
+  | nil => intro s tail acc _ _; simp [digitsVal]
+  | cons d ds ih =>
+    intro s tail acc hd hv
+    have hd16 : d < 16 := hd d List.mem_cons_self
+    have hval : hexVal8 (hexDigitByte d) = some d := hexVal8_digit ⟨d, hd16⟩
+    have hge := digitsVal_ge ds (s * 16 + d)
+    have hv' : digitsVal (s * 16 + d) ds < u64Bound := by simpa [digitsVal] using hv
+    have hs : s * 16 < u64Bound := by omega
+    have hc : ctl .size s (hexDigitByte d) = some (.size, s * 16 + d) := by
+      simp only [ctl, hval, hs, if_true]
+    simp only [List.map_cons, List.cons_append]
+    rw [runBytes_ctl _ _ (by decide) (by decide) hc]
+    rw [ih (s * 16 + d) tail acc (fun x hx => hd x (List.mem_cons_of_mem _ hx)) hv']
+    simp [digitsVal]
+
+theorem hexDigitsLE_lt (fuel n : Nat) : ∀ d ∈ hexDigitsLE fuel n, d < 16 := by
+  induction fuel generalizing n with
+  | zero => simp [hexDigitsLE]
+  | succ f ih =>
+    intro d hd
+    simp only [hexDigitsLE] at hd
+    split at hd
+    · simp at hd; omega
+    · simp only [List.mem_cons] at hd
+      rcases hd with h | h
+      · omega
+      · exact ih _ d h
+
+theorem hexDigitsLE_val (fuel n : Nat) (h : n ≤ fuel) (hf : 0 < fuel) :
+    (hexDigitsLE fuel n).foldr (fun d a => a * 16 + d) 0 = n := by
+  induction fuel generalizing n with
+  | zero => omega
+  | succ f ih =>
+    simp only [hexDigitsLE]
+    split
+    · simp
+    · next h16 =>
+      simp only [List.foldr_cons]
+      have : n / 16 ≤ f := by omega
+      have hf' : 0 < f := by omega
+      rw [ih (n / 16) this hf']
+      omega
+
+theorem hexDigits_val (n : Nat) : digitsVal 0 (hexDigits n) = n := by
+  simp only [digitsVal, hexDigits, List.foldl_reverse]
+  exact hexDigitsLE_val (n + 1) n (by omega) (by omega)
+
+theorem hexDigits_lt (n : Nat) : ∀ d ∈ hexDigits n, d < 16 := by
+  intro d hd
+  simp only [hexDigits, List.mem_reverse] at hd
+  exact hexDigitsLE_lt _ _ d hd
+
+theorem ctl_size_cr (n : Nat) : ctl .size n 13 = some (.sizeLf, n) := rfl
+theorem ctl_size_zero : ctl .size 0 48 = some (.size, 0) := rfl
+theorem ctl_sizeLf_lf (n : Nat) : ctl .sizeLf n 10 = if n > 0 then some (.body, n) else some (.endCr, n) := rfl
+theorem ctl_bodyCr_cr (n : Nat) : ctl .bodyCr n 13 = some (.bodyLf, n) := rfl
+theorem ctl_bodyLf_lf (n : Nat) : ctl .bodyLf n 10 = some (.size, n) := rfl
+theorem ctl_endCr_cr (n : Nat) : ctl .endCr n 13 = some (.endLf, n) := rfl
+theorem ctl_endLf_lf (n : Nat) : ctl .endLf n 10 = some (.done, n) := rfl
+
+/-- one chunk on the wire is decoded to exactly its data, leaving the decoder at a fresh size line -/
+theorem runBytes_chunk (c tail acc : Bytes) (hne : c ≠ []) (hlen : c.length < u64Bound) :
+    runBytes (.chunked .size 0) (encodeChunk c ++ tail) acc = runBytes (.chunked .size 0) tail (acc ++ c) := by
+  have hpos : 0 < c.length := by
+    cases c with
+    | nil => exact absurd rfl hne
+    | cons _ _ => simp
+  simp only [encodeChunk, hexBytes, List.append_assoc]
+  rw [runBytes_digits (hexDigits c.length) 0 _ acc (hexDigits_lt _) (by rw [hexDigits_val]; exact hlen)]
+  rw [hexDigits_val]
+  simp only [crlf, List.cons_append, List.nil_append]
+  -- CR LF after the size
+  rw [runBytes_ctl _ _ (by decide) (by decide) (ctl_size_cr _)]
+  rw [runBytes_ctl _ _ (by decide) (by decide) (show ctl .sizeLf c.length 10 = some (.body, c.length) by
+    rw [ctl_sizeLf_lf]; simp [hpos])]
+  -- the data, in one bulk read
+  rw [runBytes_body_bulk c.length c.length (c ++ 13 :: 10 :: tail) acc hpos (Nat.le_refl _) (by simp)]
+  simp only [Nat.sub_self, Nat.lt_irrefl, if_false, List.drop_left, List.take_left, gt_iff_lt]
+  -- CR LF after the data
+  rw [runBytes_ctl _ _ (by decide) (by decide) (ctl_bodyCr_cr _)]
+  rw [runBytes_ctl _ _ (by decide) (by decide) (ctl_bodyLf_lf _)]
+
+/-- the terminating `0 CRLF CRLF` -/
+theorem runBytes_last (rest acc : Bytes) :
+    runBytes (.chunked .size 0) (lastChunk ++ rest) acc = ⟨acc, .chunked .done 0, rest, .done⟩ := by
+  simp only [lastChunk, List.cons_append, List.nil_append]
+  rw [runBytes_ctl _ _ (by decide) (by decide) ctl_size_zero]
+  rw [runBytes_ctl _ _ (by decide) (by decide) (ctl_size_cr _)]
+  rw [runBytes_ctl _ _ (by decide) (by decide) (show ctl .sizeLf 0 10 = some (.endCr, 0) by rfl)]
+  rw [runBytes_ctl _ _ (by decide) (by decide) (ctl_endCr_cr _)]
+  rw [runBytes_ctl _ _ (by decide) (by decide) (ctl_endLf_lf _)]
+  exact runBytes_done _ rfl _ _
+
+theorem runBytes_encodeChunked (cs : List Bytes) (rest acc : Bytes)
+    (h : ∀ c ∈ cs, c ≠ [] ∧ c.length < u64Bound) :
+    runBytes (.chunked .size 0) (encodeChunked cs ++ rest) acc =
+      ⟨acc ++ flat cs, .chunked .done 0, rest, .done⟩ := by
+  induction cs generalizing acc with
+  | nil => simp only [encodeChunked, List.map_nil, flat, List.foldr_nil, List.nil_append, List.append_nil]; exact runBytes_last rest acc
+  | cons c cs ih =>
+    have hc := h c List.mem_cons_self
+    have := ih (acc ++ c) (fun x hx => h x (List.mem_cons_of_mem _ hx))
+    simp only [encodeChunked, List.map_cons, flat_cons, List.append_assoc] at this ⊢
+    rw [runBytes_chunk c _ acc hc.1 hc.2, this]
+
 end ActixModel.ClientDecode
